@@ -112,6 +112,7 @@ type Sched struct {
 	progress   atomic.Int64
 	draining   atomic.Bool
 	driverGoid atomic.Int64
+	bubbleID   atomic.Int64
 }
 
 // Go creates a thread; it is parked at label "start" until its first Grant.
@@ -468,7 +469,9 @@ func Run(t *testing.T, opt Options, driver func(s *Sched)) (out Outcome) {
 		}()
 		synctest.Test(t, func(t *testing.T) {
 			s.freeCh = make(chan struct{})
-			s.driverGoid.Store(curGoid())
+			gid, bid := curGoid()
+			s.driverGoid.Store(gid)
+			s.bubbleID.Store(bid)
 			defer s.Free()
 			defer func() {
 				if x := recover(); x != nil {
@@ -517,6 +520,12 @@ func Run(t *testing.T, opt Options, driver func(s *Sched)) (out Outcome) {
 		if h == nil { // progress was made meanwhile
 			continue
 		}
+		if h.Draining {
+			// the driver has returned (its results stand); what is left of the bubble cannot exit: abandon it
+			leaked.Add(1)
+			out.Hang = h
+			return
+		}
 		if h.Deadlock && (!opt.Strict || idle >= opt.StrictAfter) {
 			leaked.Add(1)
 			out.Hang = h
@@ -562,7 +571,7 @@ func (s *Sched) inspect(idle time.Duration) *Hang {
 	}
 	h := &Hang{IdleS: idle.Seconds(), Draining: s.draining.Load(), Goroutines: g2}
 	if g2 == nil {
-		h.Reason = "the driver goroutine was not found in the goroutine dump"
+		h.Reason = "the bubble was not found in the goroutine dump"
 		return h
 	}
 	if fmt.Sprint(summary(g1)) != fmt.Sprint(summary(g2)) {
@@ -607,20 +616,11 @@ func summary(gs []GInfo) []string {
 
 // bubbleGoroutines returns the goroutines that belong to the same bubble as the driver.
 func (s *Sched) bubbleGoroutines() []GInfo {
-	drv := s.driverGoid.Load()
-	if drv == 0 {
-		return nil
-	}
-	all := ParseDump(fullDump())
-	var bubble int64
-	for _, g := range all {
-		if g.ID == drv {
-			bubble = g.Bubble
-		}
-	}
+	bubble := s.bubbleID.Load()
 	if bubble == 0 {
 		return nil
 	}
+	all := ParseDump(fullDump())
 	var out []GInfo
 	for _, g := range all {
 		if g.Bubble == bubble {
@@ -640,12 +640,19 @@ func fullDump() string {
 	}
 }
 
-func curGoid() int64 {
-	buf := make([]byte, 64)
+// curGoid returns the id of the calling goroutine and of its synctest bubble (0 outside bubbles).
+func curGoid() (id, bubble int64) {
+	buf := make([]byte, 160)
 	n := runtime.Stack(buf, false)
-	var id int64
-	fmt.Sscanf(string(buf[:n]), "goroutine %d ", &id)
-	return id
+	hd := string(buf[:n])
+	if i := strings.IndexByte(hd, '\n'); i >= 0 {
+		hd = hd[:i]
+	}
+	fmt.Sscanf(hd, "goroutine %d ", &id)
+	if i := strings.Index(hd, "synctest bubble "); i >= 0 {
+		fmt.Sscanf(hd[i:], "synctest bubble %d", &bubble)
+	}
+	return
 }
 
 // ParseDump parses the output of runtime.Stack(all).
